@@ -25,6 +25,7 @@ Definition show_ev (e : ev) : string :=
   | ECancel => "c;"
   | EExc x => show_exc x ++ ";"
   | EDefErr j => "e" ++ show_nat j ++ ";"
+  | EApp _ | ERem _ | EClear => ""
   end.
 
 Definition show_final (s : st) : string :=
